@@ -2,6 +2,7 @@
 
 from __future__ import annotations
 
+import zlib
 import sys
 import types
 
@@ -255,6 +256,11 @@ def render_canonical(spec, cls_suffix="", _providers_only=False, _uid=None):
                 body += ["    __hash__ = None      # e.g. a plain (non-frozen) dataclass"]
             else:
                 body += ["    def __hash__(self):", "        return 7"]
+        if zlib.crc32(str(spec["uid"]).encode()) % 7 == 0 and not any(
+                ln.lstrip().startswith(("name =", "def name(")) for ln in body):
+            # every provider of this machine carries the same truthy `name` attribute (two plug-ins of
+            # one kind, a model called like a listener): providers are told apart by identity, not by name
+            body.append("    name = 'audit'")
         L += body or ["    pass"]
         L.append("")
     # per-instance hooks (assigned on the object, not defined on its class)
